@@ -334,6 +334,8 @@ def run(repo, chk):
     annotation_cache_obligations(repo, chk, "R11.2")
     from .shared import activation_integrity_obligations
     activation_integrity_obligations(repo, chk, "R11.5", "tag probes")
+    from .shared import variant_selection_obligations
+    variant_selection_obligations(repo, chk, "R11.5")      # a tag-restricted wildcard instruments only the bindings carrying its tag: the named captures next to it must stay in the key of the variant
     from .shared import fit_memo_obligations
     fit_memo_obligations(repo, chk, "R11.3", "a selector that names no function (`$v:@T`, `*:@T`) is fitted against each function on its own variable table, never against the table of another function that came before it")
     # ---------------- R11.5
